@@ -756,7 +756,9 @@ class FillNode(BaseNode):
                 while curr_forloop.get("parentloop"):
                     curr_forloop["parentloop"] = curr_forloop["parentloop"].copy()
                     curr_forloop = curr_forloop["parentloop"]
-                data.extra_context.update(layer)
+                # NOTE: Only the loop state is replaced by its copy. The other variables of the layer were
+                # captured above, in order, so a later `{% with %}` that re-binds the loop variable wins.
+                data.extra_context["forloop"] = layer["forloop"]
 
         collected_fills.append(data)
 
